@@ -2,6 +2,7 @@ import VaxisModel.Driver.Common
 import VaxisModel.Model.Key
 import VaxisModel.Model.KeyBody
 import VaxisModel.Spec.KeyEnc
+import VaxisModel.Spec.KeyEvent
 import VaxisModel.Spec.KeyEncUni
 
 /-! Driver for C09 (key decoding and binding matching).  Every line is self-contained
@@ -301,10 +302,10 @@ def step (line : String) : String :=
       let u := mkUni t f
       let s := keyString u k
       let model := s!"{showStr s}|{b01 (matchString u k s)}"
-      let v := if KeyEnc.pressedChord k then
+      let v := if KeyEnc.bindableEvent k then
           (if impl.endsWith "|1" then "ok"
            else
-             let cls := "chord"
+             let cls := if KeyEnc.pressedChord k then "chord" else s!"event type {k.event}"
              s!"FAIL self-match [{cls}]: key {showKey k} does not match its own String() {impl}") else "-"
       s!"{model}\t{impl}\t{v}"
     | _, _, _ => bad
